@@ -89,7 +89,8 @@ func main() {
 			"overlay-map oracle, then RW-set audit, then replay over XMReaderFromRWSet(rwset) alone. Part 1 (exhaustive): every program of <= 4 ops over a 13-op alphabet (get/put/del of 3 keys, "+
 			"4 scans; thorough tier: <= 5 ops, plus open-iterator / next-1) x every backing state of the 3 keys (never-written/live/deleted)^3 on an in-memory versioned reader. Part 2: random programs (1-40 ops, 1-3 buckets + $transient) over random "+
 			"in-memory backing states. Part 3: random programs over the REAL xmodel of simnode nodes with committed create/overwrite/delete/re-create transactions (confirmed and pending). "+
-			"Part 4 (probe): nil-upper-bound scans over the real xmodel, pre-execution vs replay. case = (backing state, program); distinct = up to the unique ids written; "+
+			"Part 4 (probe): nil-upper-bound scans over the real xmodel, pre-execution vs replay. Per real node a few programs are also run as a $verif kernel contract through contract.Manager/PreExec "+
+			"and must agree with the directly driven sandbox. case = (backing state, program); distinct = up to the unique ids written; "+
 			"non-trivial = the program made at least one observation (Get answer / scan item / scan end) that depended on a preceding write of the execution or on a key present in the backing state")
 	defer sn.CleanupScratch()
 
@@ -125,7 +126,7 @@ func main() {
 					lc["ops.transfer"] += f.transfers
 					for name, on := range map[string]bool{"two-iterators-open": f.twoIters, "write-while-iterator-open-same-bucket": f.writeWhileOpen,
 						"early-stop": f.earlyStop, "nil-lower-bound": f.nilLo, "nil-upper-bound": f.nilHi, "empty-bound": f.emptyBound,
-						"inverted-range": f.inverted, "transient-write": f.transientWrite, "transient-read": f.transientRead, "mid-execution-rwset": f.midRWSet,
+						"inverted-range": f.inverted, "empty-key": f.emptyKey, "transient-write": f.transientWrite, "transient-read": f.transientRead, "mid-execution-rwset": f.midRWSet,
 						"scan-over-key-deleted-in-this-execution": f.scanOverExecDel, "scan-over-looked-up-absent-key": f.scanOverLookedAbsent,
 						"scan-over-key-deleted-in-backing-state": f.scanOverBkDel, "scan-over-key-overwritten-in-this-execution": f.scanOverOverwritten} {
 						if on {
@@ -148,7 +149,7 @@ func main() {
 						lc["nilend-probe.scans-missing-live-keys-in-pre-execution"] += res.nilEndMiss
 					}
 					sampleMu.Lock()
-					if sampled[j.phase] < sampleQuota[j.phase] && res.observed >= 2 && len(j.prog) >= 3 && len(j.prog) <= 8 && (f.writes+f.dels > 0) && f.scans > 0 {
+					if sampled[j.phase] < sampleQuota[j.phase] && len(j.bk.M) > 0 && res.observed >= 2 && len(j.prog) >= 3 && len(j.prog) <= 8 && (f.writes+f.dels > 0) && f.scans > 0 {
 						sampled[j.phase]++
 						r.Sample(map[string]interface{}{"phase": j.phase, "backing_state": j.bk.describe(), "program": progLines(j.prog), "sandbox_answers": answers(j.prog, res.obs)})
 					}
@@ -205,7 +206,7 @@ func main() {
 	fmt.Fprintf(os.Stderr, "c10: exhaustive part submitted (%d cases)\n", submitted)
 
 	// ---- part 2: random programs over random in-memory backing states ----
-	nMem := r.N(120000, 3000000)
+	nMem := r.N(120000, 2000000)
 	for lo := 0; lo < nMem; lo += 1000 {
 		lo, hi := lo, lo+1000
 		if hi > nMem {
@@ -227,8 +228,8 @@ func main() {
 
 	// ---- part 3 + 4: the real xmodel ----
 	nNodes := r.N(6, 24)
-	perNode := r.N(6000, 60000)
-	probePerNode := r.N(1500, 20000)
+	perNode := r.N(6000, 40000)
+	probePerNode := r.N(1500, 10000)
 	for ni := 0; ni < nNodes; ni++ {
 		rg := rand.New(rand.NewSource(mix(r.Seed, 1<<30+ni)))
 		rb, err := buildReal(rg, fmt.Sprintf("real%d", ni))
@@ -239,6 +240,10 @@ func main() {
 		r.Count("real.nodes", 1)
 		r.Count("real.setup-transactions", rb.txs)
 		r.Count("real.setup-blocks", rb.blocks)
+		r.Count("real.setup.keys-recreated-after-delete", rb.recreated)
+		r.Count("real.setup.keys-overwritten", rb.overwritten)
+		r.Count("real.setup.live-keys-deleted", rb.deletedLive)
+		r.Count("real.setup.never-written-keys-deleted", rb.deletedNever)
 		pend, _ := rb.node.State.GetUnconfirmedTx(false)
 		if len(pend) > 0 {
 			r.Count("real.nodes-with-pending-writes", 1)
@@ -256,6 +261,18 @@ func main() {
 			}
 		}
 		ni := ni
+		for i := 0; i < r.N(60, 600); i++ {
+			pg := rand.New(rand.NewSource(mix(r.Seed, 1<<27+ni*1000003+i)))
+			prog := genE2EProgram(pg, rb.u)
+			if ok, why := e2e(rb, prog); !ok {
+				r.Count("e2e.disagreements", 1)
+				if r.Counter("e2e.disagreements") == 1 {
+					r.Inconclusive("driving the sandbox directly and through contract.Manager + $verif kernel contract disagree: " + why)
+				}
+			} else {
+				r.Count("e2e.programs-agreeing-with-contract-path", 1)
+			}
+		}
 		for lo := 0; lo < perNode; lo += 500 {
 			lo, hi := lo, lo+500
 			if hi > perNode {
@@ -309,6 +326,7 @@ func main() {
 	r.Assume("the oracle's view of a real node's state is derived from the committed transactions (version = txid + output offset) and cross-checked against reader.Get at set-up")
 	r.Assume("for a key written WHILE an iterator is open the oracle accepts the state at Select time or any later one; for all other keys scans are judged exactly")
 	r.Assume("token side: a static first-fit utxo reader; xmodel.MarshalMessages is trusted to compare the transient outputs of Flush")
+	r.Assume("driving sandbox.NewXModelCache directly observes what a contract observes: cross-checked per node by running programs as a $verif kernel contract through contract.Manager / PreExec (answers, read set, write set must agree)")
 	r.Assume("phantoms (keys absent from a scanned range) are not expected in the read set; the statement's read set is keys Get-ed and keys yielded")
 	for _, fl := range []struct {
 		c string
@@ -316,11 +334,11 @@ func main() {
 	}{{"programs.exhaustive", 800000}, {"programs.random-mem", 10000}, {"programs.real-xmodel", 4000}, {"programs.nilend-probe", 1000},
 		{"replays.compared", 20000}, {"answers.served-from-backing-state", 10000}, {"scan.items-judged", 10000},
 		{"feature.two-iterators-open", 200}, {"feature.write-while-iterator-open-same-bucket", 200}, {"feature.early-stop", 1000},
-		{"feature.nil-lower-bound", 1000}, {"feature.nil-upper-bound", 1000}, {"feature.empty-bound", 200}, {"feature.inverted-range", 100},
+		{"feature.nil-lower-bound", 1000}, {"feature.nil-upper-bound", 1000}, {"feature.empty-bound", 200}, {"feature.inverted-range", 100}, {"feature.empty-key", 100},
 		{"feature.transient-write", 500}, {"feature.transient-read", 100}, {"ops.transfer", 500}, {"feature.mid-execution-rwset", 200},
 		{"feature.scan-over-key-deleted-in-this-execution", 1000}, {"feature.scan-over-looked-up-absent-key", 1000},
 		{"feature.scan-over-key-deleted-in-backing-state", 1000}, {"feature.scan-over-key-overwritten-in-this-execution", 1000},
-		{"rset.lookahead-extras", 100}, {"real.nodes", 1}, {"real.keys-deleted", 1}, {"real.keys-live", 1}} {
+		{"rset.lookahead-extras", 100}, {"real.nodes", 1}, {"real.keys-deleted", 1}, {"real.keys-live", 1}, {"real.setup.keys-recreated-after-delete", 1}, {"real.setup.keys-overwritten", 1}, {"real.setup.live-keys-deleted", 1}, {"e2e.programs-agreeing-with-contract-path", 100}} {
 		r.Floor(fl.c, fl.n)
 	}
 	r.Finish()
